@@ -146,7 +146,7 @@ def run(chk):
 def replay(path):
     v = json.load(open(path))
     rp = v["replay"]
-    chk = lib.Check("C12", "replay", 0)
+    chk = lib.Check("C12-replay", "replay", 0)
     if rp.get("kind") == "roundtrip":
         print("round-trip violations are replayed by re-running the check")
         return 2
